@@ -99,6 +99,7 @@ def run(ctx, chk, tier="quick"):
                        "repr(float) is at most 24 characters", "foreign keys hold in the dataset (enforced at load; level ids contained in the grid: C13.O5)"]
     from .. import sqltypes
     sqltypes.check(ctx, chk, "C19.O3", modules=("pestfiles",), views=("average_rising_depth", "average_recession_time"))
+    _truthiness_filters(ctx, chk)
     mod = ctx.repo.module("pestfiles")
     subst = {}
     for view, child, sym in (("average_rising_depth", "rising_interval_zeta", "N_rise"),
@@ -544,3 +545,50 @@ def factory_class(ctx, section, ty):
                     if q in f.module.functions:
                         return f.module.functions[q]
     return None
+
+
+def _truthiness_filters(ctx, chk):
+    """Rows of a query must not be selected by the truth value of a measured column: a master-curve value of
+    exactly 0.0 (every curve passes through zero at its reference level) would be dropped like a NULL, and
+    the control file would then list fewer observations than the instruction file and the simulation write.
+    Counted instances: comprehension filters / if tests in the pestfiles generators and the simulate commands
+    whose subject is a loop variable that ranges over fetched rows."""
+    n_filters = 0
+    for modname in ("pestfiles", "simulate_rise", "simulate_recession"):
+        if modname not in ctx.repo.modules:
+            continue
+        for q, f in sorted(ctx.repo.modules[modname].functions.items()):
+            flow = Flow.of(f)
+
+            def from_rows(it, depth=0):
+                if depth > 5 or it is None:
+                    return False
+                for c in ast.walk(it):
+                    if isinstance(c, ast.Call) and isinstance(c.func, ast.Attribute) and c.func.attr in ("fetchall", "fetchmany", "execute"):
+                        return True
+                    if isinstance(c, ast.Name) and isinstance(c.ctx, ast.Load):
+                        if c.id in ("cursor",):
+                            return True
+                        dv = flow.def_value(c)
+                        if dv is not None and from_rows(dv, depth + 1):
+                            return True
+                return False
+
+            for comp in ast.walk(f.node):
+                if not isinstance(comp, (ast.ListComp, ast.GeneratorExp, ast.SetComp, ast.DictComp)):
+                    continue
+                for g in comp.generators:
+                    tnames = {x.id for x in ast.walk(g.target) if isinstance(x, ast.Name)}
+                    for t in g.ifs:
+                        n_filters += 1
+                        core = t
+                        while isinstance(core, ast.UnaryOp) and isinstance(core.op, ast.Not):
+                            core = core.operand
+                        subj = core.value if isinstance(core, ast.Subscript) and isinstance(core.slice, ast.Constant) else core
+                        if isinstance(subj, ast.Name) and subj.id in tnames and from_rows(g.iter):
+                            core = subj if core is subj else core
+                            chk.ob("C19.O1", False, where_of(f, t), "rows selected by the truth value of `%s` in %s" % (ast.unparse(core), ast.unparse(comp)[:80]),
+                                   "`is not None`: an exact 0.0 is a measured value, not a missing one",
+                                   key="%s|truthiness-filter|%s" % (f.qualname, ast.unparse(core)),
+                                   why="each master curve is zero at its reference level; dropping that row shifts every later observation against the instruction file and the simulated vector")
+    chk.count("row_filters_examined", n_filters)
